@@ -49,3 +49,22 @@ func init() {
 		Assumptions: []string{"reference = 30-line model of the documented interceptor diagram (harness/ref/flow.go)"},
 	})
 }
+
+func init() {
+	langAssume := []string{
+		"reference semantics = DESIGN.md section 4 (harness/ref/lang.go): set-based denotational matcher over reading states, maximal-munch option groups; verdicts hinging on U1/U2 (spec-level `--` over a partially consumed run, reach-over a malformed token) or on the group reading are counted as unclaimed, never judged",
+		"declared program: flags a/aa, b/bb, valued o/out, arguments X, Y (logging custom flag.Value types, and built-in Bool/Strings types in the builtin tiers)",
+	}
+	addProp(&propDef{
+		ID: "C01", Check: "lang", Level: "exploration",
+		Rule:        "all grammar-derived spec strings up to the size bound (size = leaves + `...` + bracket pairs; deduplicated through a set) x all argument vectors up to the length bound over the token alphabet (every documented spelling, positionals, '-', '--', undeclared and malformed tokens), plus per spec all words over the spec's own letters up to length 5/6 (model traces); each pair is run on a freshly built application through Cli.Run and judged by the reference; pairs are distinct by construction; non-trivial = the reference accepts, or some atom consumed a token before rejecting",
+		Assumptions: langAssume,
+		Budget:      [2]int{1200, 7200},
+	})
+	addProp(&propDef{
+		ID: "C02", Check: "lang", Level: "exploration",
+		Rule:        "same (spec, argv) space as C01; judged on every accepted pair: the per-container value lists observed inside the Action must equal the bindings of one accepting derivation of the reference (all derivations are computed, ambiguous specs included), and independently of the reference matcher every option holds exactly its occurrences' values in command-line order and the positional tokens are partitioned in order over the arguments; non-trivial = accepted pairs with a claimed verdict",
+		Assumptions: langAssume,
+		Budget:      [2]int{1200, 7200},
+	})
+}
